@@ -59,6 +59,7 @@ type batchOut struct {
 	GetValue   int64          `json:"get_value"`
 	Waited     int64          `json:"do_calls_that_found_f_in_progress"`
 	Rendezvous int64          `json:"rendezvous_completed"`
+	FaultRuns  int64          `json:"runs_in_which_f_did_not_return"`
 	Violations []violationRec `json:"violations"`
 	LastSpec   spec           `json:"last_spec"`
 }
@@ -264,6 +265,64 @@ func checkValue(api string, k int, v any, nilOK bool, completed []int32, publish
 	}
 }
 
+// faultRun: the single invocation of f for a key does not return (it panics and its caller recovers, or
+// it ends its goroutine with runtime.Goexit, which is what t.FailNow inside f does). f has then been
+// invoked exactly once and has produced no value: no later Do for the key may invoke f again or return
+// a value, and Get returns nil. (On the tree as it is, later Do calls for that key block for ever; the
+// three probing goroutines are left behind blocked, which is harmless in this short-lived process.)
+func faultRun(seed int64, out *batchOut) {
+	var c par.Cache
+	var calls int32
+	viol := func(kind, detail string) {
+		outMu.Lock()
+		out.Violations = append(out.Violations, violationRec{kind, detail, spec{Seed: seed}})
+		if flushOut != nil {
+			flushOut()
+		}
+		os.Exit(0)
+	}
+	mode := []string{"panics", "calls runtime.Goexit"}[seed&1]
+	done := make(chan struct{})
+	go func() {
+		defer close(done)
+		defer func() { recover() }()
+		c.Do("key", func() any {
+			atomic.AddInt32(&calls, 1)
+			perturb(uint64(seed))
+			if seed&1 == 0 {
+				panic("injected failure of f")
+			}
+			runtime.Goexit()
+			return nil
+		})
+	}()
+	<-done
+	second := make(chan any, 3)
+	for i := 0; i < 3; i++ {
+		go func() {
+			second <- c.Do("key", func() any {
+				atomic.AddInt32(&calls, 1)
+				return "value of a second invocation"
+			})
+		}()
+	}
+	// observation window only: nothing is concluded from the probes staying blocked
+	select {
+	case v := <-second:
+		viol("f-invoked-again-after-it-did-not-return", fmt.Sprintf("f for the key %s; a later Do for the same key returned %v (f invoked %d times)", mode, v, atomic.LoadInt32(&calls)))
+	case <-time.After(15 * time.Millisecond):
+	}
+	if n := atomic.LoadInt32(&calls); n > 1 {
+		viol("f-invoked-again-after-it-did-not-return", fmt.Sprintf("f for the key %s; f was then invoked %d times", mode, n))
+	}
+	if v := c.Get("key"); v != nil {
+		viol("get-returned-value-f-never-produced", fmt.Sprintf("f for the key %s; Get returned %v", mode, v))
+	}
+	outMu.Lock()
+	out.FaultRuns++
+	outMu.Unlock()
+}
+
 func genSpec(rng *rand.Rand) spec {
 	s := spec{Seed: rng.Int63()}
 	s.G = []int{2, 3, 4, 8, 32}[rng.Intn(5)]
@@ -295,6 +354,9 @@ func batch() {
 		sb, _ := json.Marshal(&sp)
 		os.WriteFile(outPath+".spec", sb, 0o666)
 		oneRun(sp, &out)
+		if i%100 == 37 {
+			faultRun(sp.Seed, &out)
+		}
 	}
 	outMu.Lock()
 	flushOut()
@@ -317,7 +379,7 @@ func main() {
 		return
 	}
 	vlib.Main("C10", "exploration", 15*time.Minute, func(r *vlib.Run) {
-		r.Rule("runs: 2-32 goroutines x 1-6 keys (string keys as in testscript's exec cache, pointer keys as in goproxytest's zip cache, ints) x 1-6 random Do/Get operations each, with fast / slow / nested f, in a third of the runs some keys' genuine result is nil (still computed once); a quarter of the runs are rendezvous runs in which f(key 0) does not finish until another goroutine's Get(key 0) has returned. Every Do/Get result is checked against the monitor. Each batch runs in a child, in a non-race build (runtime deadlock detector) and a race build (watchdog + dump + race detector), GOMAXPROCS in {1,2,16}. Distinct non-trivial = Do calls that arrived while f for their key was in progress (measured), plus completed rendezvous.")
+		r.Rule("runs: 2-32 goroutines x 1-6 keys (string keys as in testscript's exec cache, pointer keys as in goproxytest's zip cache, ints) x 1-6 random Do/Get operations each, with fast / slow / nested f, in a third of the runs some keys' genuine result is nil (still computed once); a quarter of the runs are rendezvous runs in which f(key 0) does not finish until another goroutine's Get(key 0) has returned. Every Do/Get result is checked against the monitor. One run in 100 is followed by a fault run: f panics (recovered by its caller) or calls runtime.Goexit, after which no Do for that key may invoke f again or return a value. Each batch runs in a child, in a non-race build (runtime deadlock detector) and a race build (watchdog + dump + race detector), GOMAXPROCS in {1,2,16}. Distinct non-trivial = Do calls that arrived while f for their key was in progress (measured), plus completed rendezvous.")
 		r.Assume("interleavings are sampled, not enumerated; the race detector sees only the executions that happened")
 		base := vlib.Scratch()
 		build := os.Getenv("VERIF_BUILD")
@@ -424,6 +486,7 @@ func main() {
 			tot.GetValue += bo.GetValue
 			tot.Waited += bo.Waited
 			tot.Rendezvous += bo.Rendezvous
+			tot.FaultRuns += bo.FaultRuns
 			r.Count("batches_"+jb.build, 1)
 			if i == 0 {
 				r.Sample(map[string]any{"kind": "batch", "build": jb.build, "gomaxprocs": jb.procs, "runs": bo.Runs, "last_spec": bo.LastSpec})
@@ -447,6 +510,7 @@ func main() {
 		r.Set("get_returned_value", tot.GetValue)
 		r.Set("do_calls_that_found_f_in_progress", tot.Waited)
 		r.Set("rendezvous_completed_get_returned_while_f_inside", tot.Rendezvous)
+		r.Set("runs_in_which_f_panicked_or_called_goexit", tot.FaultRuns)
 		r.ReportRaces(racePrefix)
 		if tot.Rendezvous < 10 || tot.Waited < 50 {
 			r.Inconclusive("too few rendezvous / waiting Do calls observed")
